@@ -4,6 +4,8 @@
    unbound parameters first, its type has arity = unbound, and exactly its bound parameters are mapped to the arguments. */
 #include "kinds.h"
 #define REACH __CPROVER_assert(0, "reach")
+#define TCODE_PROCESS_V 3
+#define TCODE_PROCESS_SET_V 4
 extern int verif_thrown;
 void w08_init(int nloc, int nbp, int nedge, int dup_name);
 int w08_add_location(int name);
@@ -124,7 +126,31 @@ void h_c08_template(void)
     __CPROVER_assert(w08_templ(dyn, 13, k) == dyn && (!dyn || w08_templ(dyn, 14, k) == k), "c08.add_template.dynamic-flag-and-index");
     REACH;
 }
-void h_c08_instance(void)
+void w08_use_lsc(int on);
+int w08_add_process(void);
+int w08_proc(int what);
+static void instance_body(void);
+void h_c08_instance(void) { w08_use_lsc(0); instance_body(); REACH; }
+void h_c08_lsc_instance(void) { w08_use_lsc(1); instance_body(); REACH; }
+/* a process is a COPY of the instance under a NEW symbol of the same name whose user object is the process itself; its type is
+   a process type over the template's frame when no parameter is left unbound, otherwise a process set over the instance's type */
+void h_c08_process(void)
+{
+    int np, nfree, nargs, name, pre;
+    __CPROVER_assume(np >= 0 && np <= 2 && nfree >= 0 && nfree <= 1 && name >= 70 && name <= 72 && nargs >= 0 && nargs <= np && pre >= 0 && pre < 4);
+    w08_use_lsc(0);
+    w08_init(0, 0, np, 0);
+    w08_add_instance(name, nfree, nargs, 0, pre, 0, 0);
+    int n = w08_add_process();
+    __CPROVER_assert(n == 1 && w08_proc(0) == 1, "c08.add_process.one-process-is-appended");
+    __CPROVER_assert(w08_proc(1) && w08_proc(2) && w08_proc(3), "c08.add_process.the-process-is-the-user-object-of-its-own-new-symbol,-named-like-the-instance,-in-the-global-frame");
+    __CPROVER_assert(w08_proc(4) == (nfree == 0 ? TCODE_PROCESS_V : TCODE_PROCESS_SET_V) && w08_proc(5), "c08.add_process.process-type-over-the-template's-frame,-or-a-process-set-while-parameters-are-unbound");
+    __CPROVER_assert(w08_proc(6) && w08_proc(7), "c08.add_process.the-process-carries-the-instance's-parameters,-counts,-template-and-bindings");
+    __CPROVER_assert(w08_proc(8), "c08.add_process.the-instance-keeps-its-own-symbol");
+    if (nfree == 1) __CPROVER_assert(0, "reach:process-set");
+    REACH;
+}
+static void instance_body(void)
 {
     int np, nfree, nargs, name, srcargs, pre, kind, ns;
     __CPROVER_assume(np >= 0 && np <= 2 && nfree >= 0 && nfree <= 1 && name >= 70 && name <= 72);
@@ -164,5 +190,4 @@ void h_c08_instance(void)
     }
     if (kind == 1 && nargs > 0) __CPROVER_assert(0, "reach:partial-instance-instantiated-with-arguments");
     if (inherited > 0) __CPROVER_assert(0, "reach:inherited-binding");
-    REACH;
 }
